@@ -27,10 +27,23 @@ RANGES = [(60, 64), (21, 108), (0, 127), (60, 60)]
 VALUESETS = [None, [6, 12, 24], [24, 12, 6, 16, 8, 4, 36, 18, 9, 48, 96]]
 
 
-def o_vocab(inp):
+def _tk_of(inp):
+    """the tokeniser under test; with "before" in the input, those configurations are constructed first, in order, and the
+    one under test is constructed afresh after them (the history of the process is then part of the replayable input)"""
     cfg = P.TkCfg(**inp["cfg"])
+    if inp.get("before"):
+        for b in inp["before"]:
+            try:
+                P.TkCfg(**b).fresh()
+            except Exception:
+                pass
+        return cfg, cfg.fresh()
+    return cfg, cfg.tk()
+
+
+def o_vocab(inp):
     try:
-        tk = cfg.tk()
+        cfg, tk = _tk_of(inp)
     except Exception as e:
         return [("construct-raises", f"{type(e).__name__}: {e}")]
     d = tk.dictionary
@@ -63,9 +76,11 @@ def o_vocab(inp):
 
 
 def o_closed(inp):
-    cfg = P.TkCfg(**inp["cfg"])
     tracks = [[tuple(m) for m in t] for t in inp["tracks"]]
-    tk = cfg.tk()
+    try:
+        cfg, tk = _tk_of(inp)
+    except Exception:
+        return [("~skip:construct-raises", "")]
     try:
         toks = tk.tokenise([P.seq_of_rel(t) for t in tracks])
     except Exception:
@@ -112,18 +127,54 @@ def generate(ctx):
             cfgs.append(dict(num_tracks=rng.choice([1, 2]), velocity_bins=rng.choice([1, 2, 5]),
                              running=rng.random() < 0.5, fuse_track=rng.random() < 0.5, fuse_value=rng.random() < 0.5,
                              fuse_velocity=rng.random() < 0.5, pitch_range=rng.choice(RANGES), note_values=None))
+    # time-signature ranges other than the default, and *twins*: the same configuration again with exactly one parameter
+    # changed, built in the same process (anything shared between tokeniser instances shows up on the second one)
+    TS_RANGES = [(2, 16), (1, 17), (2, 24), (4, 12), (2, 8), (1, 32)]
+    more = []
     for kw in cfgs:
+        if rng.random() < 0.3:
+            kw["ts_range"] = rng.choice(TS_RANGES)
+        if rng.random() < (0.5 if not ctx.thorough else 0.25):
+            twin = dict(kw)
+            which = rng.choice(["ts_range", "ts_range", "note_values", "velocity_bins", "pitch_range", "num_tracks", "fuse_value"])
+            if which == "ts_range":
+                twin["ts_range"] = rng.choice([r for r in TS_RANGES if r != tuple(kw.get("ts_range", (2, 16)))])
+            elif which == "note_values":
+                twin["note_values"] = rng.choice([v for v in VALUESETS if v != kw.get("note_values")] or [None])
+            elif which == "velocity_bins":
+                twin["velocity_bins"] = rng.choice([b for b in (1, 2, 3, 4, 8) if b != kw["velocity_bins"]])
+            elif which == "pitch_range":
+                twin["pitch_range"] = rng.choice([r for r in RANGES[:1] + RANGES[3:] if tuple(r) != tuple(kw["pitch_range"])] or [kw["pitch_range"]])
+            elif which == "num_tracks":
+                twin["num_tracks"] = kw["num_tracks"] % 3 + 1
+            else:
+                twin["fuse_value"] = not kw["fuse_value"]
+            more.append((kw, twin))
+            ctx.count("twin:" + which)
+    order = []
+    before_of = {}
+    for kw in cfgs:
+        order.append(kw)
+        for k, t in more:
+            if k is kw:
+                order.append(t)
+                before_of[id(t)] = [dict(kw)]
+    built = []
+    for kw in order:
+        # the configurations built just before this one in the process are part of the input (a twin's sibling is the last)
+        before = [dict(b) for b in built[-3:]]
+        built.append(kw)
         cfg = P.TkCfg(**kw)
         ctx.case(sorted((k, str(v)) for k, v in kw.items()), True)
         ctx.count("flags:%d%d%d%d" % (kw["running"], kw["fuse_track"], kw["fuse_value"], kw["fuse_velocity"]))
-        ctx.check("vocab", {"cfg": kw})
+        ctx.check("vocab", {"cfg": kw, "before": before} if before else {"cfg": kw})
         ctx.count("vocab-entries", len(cfg.tk().dictionary))
         ctx.corr("vocab", P.op_vocab(cfg), post=P.vocab_view_from_lean)
         # closure on pieces drawn for this configuration
         lo, hi = kw["pitch_range"]
-        for _ in range(3):
+        for pi in range(3):
             piece = G.gen_piece(rng, n_tracks=kw["num_tracks"], pitch_range=(lo, hi), values=kw.get("note_values") or None)
-            ctx.check("closed", {"cfg": kw, "tracks": piece["tracks"]})
+            ctx.check("closed", {"cfg": kw, "tracks": piece["tracks"], "before": before} if (before and pi == 0) else {"cfg": kw, "tracks": piece["tracks"]})
             res = P.op_tokenise(cfg, None, piece["tracks"])
             ctx.corr("tokenise", res)
             if res[1].startswith("T "):
